@@ -26,7 +26,7 @@ DEFAULT_PROFILE = dict(
     subscript_whole_array_results=True, raise_=True, nested_calls=True,
     persistent_arrays=True, name_pool="plain", zero_trip=True, negative_consts=True,
     dead_code=True, cond_in_call_args=True, bare_power=True, ne_operator=True,
-    pow_of_pow=True, loop_bound_vars=True, fresh_names=False, lookups=False, complex_vars=False, assign_all_state=False, time_advance=True, force_phases=None, extra_kinds=(), zero_arg_calls=True, builtin_set=None, yield_uvec_only=False, matmul_only=False, yield_call_free=False, minmax_loop_counter=True, builtin_kwargs=True, uvfn_boost=False, kw_reverse=True, triangular=True, recall=True,
+    pow_of_pow=True, loop_bound_vars=True, fresh_names=False, lookups=False, complex_vars=False, assign_all_state=False, time_advance=True, force_phases=None, extra_kinds=(), zero_arg_calls=True, builtin_set=None, yield_uvec_only=False, matmul_only=False, yield_call_free=False, minmax_loop_counter=True, builtin_kwargs=True, uvfn_boost=False, kw_reverse=True, triangular=True, recall=True, int_reassign=True,
     real_temps=None, uvec_temps=None, arr_temps=None, flag_temps=None, int_temps=None,
 )
 
@@ -472,6 +472,12 @@ class Gen:
         if depth > 0 or not self.p["int_vars"]:
             return []
         cands = [n for n in self.INT_TEMPS if self.types.get(n, INT) == INT and n not in self.defined]
+        redo = [n for n in self.INT_TEMPS if self.defined.get(n) == INT]
+        if redo and self.p["int_reassign"] and (not cands or self.chance(40)):
+            # straight-line code only (depth 0), so the new value is known as well: write-after-read
+            # hazards on loop bounds, array lengths and indices
+            cands = redo
+            self.features.add("int_reassign")
         if not cands:
             return []
         name = self.choice(cands)
@@ -518,15 +524,18 @@ class Gen:
             lo = self.draw(st.integers(0, max(n - 1, 0)))
             hi = min(lo + 1, n)
 
-        def bound(v):
-            if self.p["loop_bound_vars"]:
-                for nme in self.names_of(INT):
-                    if self.ints[nme] == v and self.chance(60):
-                        return V(nme)
-                    if self.ints[nme] - 1 == v and self.chance(30):
-                        return ["sum", V(nme), C(-1)]
-            return C(v)
+        bound = self.bound_tree
         return lv, lo, hi, [lv, bound(lo), bound(hi)]
+
+    def bound_tree(self, v):
+        """A loop bound with value v: an integer variable holding it (or one more) when there is one."""
+        if self.p["loop_bound_vars"]:
+            for nme in self.names_of(INT):
+                if self.ints[nme] == v and self.chance(60):
+                    return V(nme)
+                if self.ints[nme] - 1 == v and self.chance(30):
+                    return ["sum", V(nme), C(-1)]
+        return C(v)
 
     def op_new_array(self, depth, force_len=None):
         if not self.p["arrays"]:
@@ -605,13 +614,13 @@ class Gen:
             self.loop_env["i"] = (0, w)
             self.loop_env["j"] = (0, h)
             idx = normal(["sum", normal(["prod", V("j"), C(w)]), V("i")])
-            loops = [["j", C(0), C(h)], ["i", C(0), C(w)]]
+            loops = [["j", C(0), self.bound_tree(h)], ["i", C(0), self.bound_tree(w)]]
             if self.p["triangular"] and h <= w and h >= 2 and (force or self.chance(50)):
                 # triangular nest: the inner bound depends on the outer counter (outer loop first)
                 if self.chance(50):
-                    loops = [["j", C(0), C(h)], ["i", C(0), normal(["sum", V("j"), C(1)])]]
+                    loops = [["j", C(0), self.bound_tree(h)], ["i", C(0), normal(["sum", V("j"), C(1)])]]
                 else:
-                    loops = [["j", C(0), C(h)], ["i", V("j"), C(w)]]
+                    loops = [["j", C(0), self.bound_tree(h)], ["i", V("j"), self.bound_tree(w)]]
                 self.features.add("triangular")
             elif self.chance(50):
                 loops.reverse()
